@@ -441,8 +441,13 @@ class BitArray(Bits):
             pos = (pos,)
         v = 1 if value else 0
         if isinstance(pos, range):
-            self._bitstore.__setitem__(slice(pos.start, pos.stop, pos.step), v)
-            return
+            if len(pos) == 0:
+                return
+            lo, hi = min(pos[0], pos[-1]), max(pos[0], pos[-1])
+            if 0 <= lo and hi < len(self):
+                # Only non-negative, in-range positions can be expressed as a slice.
+                self._bitstore.__setitem__(slice(lo, hi + 1, abs(pos.step)), v)
+                return
         for p in pos:
             self._bitstore[p] = v
 
